@@ -115,8 +115,13 @@ Quiesced ==
             \* a run cut short by the harness's trace budget has not reached the horizon and is not judged for quiescence
             \cup (IF alive /\ ~Cur.reached /\ ~Cur.cut THEN Flag("C02", "not-quiescent-within-horizon") ELSE {})
             \cup (IF alive /\ Cur.reached /\ undeliveredR # {} THEN Flag("C02", "reliable-undelivered-at-quiescence") ELSE {})
+            \* ... seen from C04: a packet of several fragments that never arrives although the connection has come to rest was
+            \* not reassembled ("every packet ... arrives")
+            \cup (IF alive /\ Cur.reached /\ \E u \in undeliveredR : sub[u].len > 1448 THEN Flag("C04", "multi-fragment-reliable-packet-never-arrived") ELSE {})
             \cup (IF alive /\ Cur.reached /\ (Cur.pending \/ Cur.bufsize # 0) THEN Flag("C02", "pending-or-buffer-nonzero-at-quiescence") ELSE {})
             \cup (IF alive /\ ideal /\ Cur.reached /\ missingIdeal # {} THEN Flag("C05", "packet-missing-on-ideal-network") ELSE {})
+            \* ... nor may the connection fail to come to rest within the horizon while such a packet is still missing
+            \cup (IF alive /\ ideal /\ ~Cur.reached /\ ~Cur.cut /\ missingIdeal # {} THEN Flag("C05", "packet-still-undelivered-on-ideal-network-at-the-horizon") ELSE {})
             \cup (IF alive /\ ideal /\ Cur.reached /\ tsOdd # {} THEN Flag("C05", "timesensitive-sent-but-not-delivered-on-ideal-network") ELSE {})
             \cup (IF alive /\ ~Cur.cut /\ lostProbe # {} THEN Flag("C11", "probe-not-delivered") ELSE {})
     /\ UNCHANGED <<sub, seen, lastOnCh, lastGlobal, relWait, ideal, probes, emitted, alive>>
